@@ -269,6 +269,12 @@ def gen(quick):
                 if ns:
                     for slens in itertools.product((0.05, 0.059) if ns <= 2 else (0.05,), repeat=ns):
                         yield (seqs, slens, base, 0.06)
+                if n <= 2 and base == 0.0:
+                    # a tier on the NEGATIVE side whose first boundary lies a few ulps above a whole number (1.1 - 4.1 = -2.9999999999999996): the writer prints
+                    # it as it is - not as -2 (truncation of a value taken for whole by floor) and not as -3
+                    for nb in (-2.9999999999999996, -0.9999999999999999, -100.99999999999999):
+                        for slens in itertools.product((1e-12, 1.1e-8), repeat=ns):
+                            yield (seqs, slens, nb, 1e-8)
                 if ns and ns <= 2 and n <= 3:
                     # thresholds FINER than the library's default resolution (1e-9, 0): the caller's threshold is the threshold - a 5e-9 interval is
                     # not a sliver under 1e-9, and under 0 nothing is
